@@ -62,7 +62,7 @@ def dispatch_table(prog, fn, enum_path, subject="arg:self"):
             tt = body.term(x)
             if tt["k"] == "call":
                 fr = callee_fn(tt)
-                if fr is not None:
+                if fr:
                     callees.append(fr.get("rdef") or fr["def"])
         table[g.variant] = callees
     missing = [n for n in names if n not in table and not (ob["term"]["k"] != "unreachable" and len([n2 for i, n2 in enumerate(names) if i not in listed]) == 1 and n in [n2 for i, n2 in enumerate(names) if i not in listed])]
@@ -100,5 +100,12 @@ def check_dispatcher(prog, rep, rule, fn, enum_path, handler_name, payload_prefi
             rep.ok(rule, key, fn.loc(), "variant %s -> %s" % (name, good[0]))
         else:
             local = [c for c in callees if c in prog.fns]
-            rep.violation(rule, key, fn.loc(), "variant %s does not dispatch to %s::%s (calls: %s)" % (name, ppath, handler_name, local[:3]))
+            has_handler = any(g.self_path == ppath and g.name == handler_name for g in prog.fns.values())
+            foreign = [c for c in local if prog.fns[c].name == handler_name and (prog.fns[c].self_path or "").startswith(payload_prefix) and prog.fns[c].self_path != ppath]
+            if not has_handler and not foreign:
+                # the payload type has no handler of that name (a trivial one was merged into the dispatcher): the arm does the
+                # work itself; what matters for routing is that it does not hand the payload to another variant's handler
+                rep.ok(rule, key, fn.loc(), "variant %s is handled in the arm itself (%s has no %s)" % (name, ppath.rsplit("::", 1)[-1], handler_name))
+            else:
+                rep.violation(rule, key, fn.loc(), "variant %s does not dispatch to %s::%s (calls: %s)" % (name, ppath, handler_name, local[:3]))
     return n
